@@ -272,7 +272,8 @@ def _populate(d: D, prof, spec):
         if prof["ondone"] and s["kind"] in ("compound", "parallel") and path and d.chance(50):
             # onDone back into the completed state's own line (self/ancestor/descendant) re-completes
             # it at once: an endless done.state chain, which is C13's subject, not this profile's
-            loopy = ["self", "self-reenter", "child", "descendant", "parent", "ancestor", "root", "targetless"]
+            loopy = ["self", "self-reenter", "child", "descendant", "parent", "ancestor", "root", "targetless",
+                     "history-inside-compound", "history-inside-parallel"]
             p2 = dict(prof, p_guard=0)
             if not prof.get("ondone_loops"):
                 p2["exclude_classes"] = list(prof["exclude_classes"]) + loopy
